@@ -746,3 +746,61 @@ def r15(ctx):
 
 
 RULES.append(("C09.R15", "T4-namesake", "a variation arm writes the object type of its own name; get_group_var reports the numbers in the variant's name", r15))
+
+
+# narrowing integer casts outside the measurement-conversion region (which C10.R1 owns): (function, cast) -> why it cannot lose a value
+R16_LISTED = {
+    ("UInt::new", "u32->u8"): "chosen under `value <= u8::MAX` (the arm guard), C09.R9 checks the width selection",
+    ("UInt::new", "u32->u16"): "chosen under `value <= u16::MAX`",
+    ("Int::new", "i32->u8"): "`value as i8 as u8` inside the i8 range arm: the one-byte two's complement encoding (C09.R9)",
+    ("Int::new", "i32->i16"): "inside the i16 range arm (C09.R9)",
+    ("Int::new", "i32->i8"): "inside the i8 range arm (C09.R9)",
+    ("AttrValue::parse_signed_int", "u8->i8"): "sign reinterpretation of the one-byte encoding, not a truncation (F15)",
+    ("crc_increment", "u16->u8"): "the CRC table is indexed by the low byte of the accumulator by definition of the algorithm (C06.R1 checks the table and seed)",
+}
+
+
+def r16(ctx):
+    """'what one side encodes the other decodes' fails silently where a count, length, index or value is narrowed by `as`: every
+    narrowing integer cast outside the measurement conversions (C10.R1) is masked (`& c`, `% c`), dominated by an upper-bound test of
+    its operand, or listed above with the reason it cannot lose a value. A new `count as u16` in a parser is none of these."""
+    import c10
+    prog = ctx.prog
+    n = 0
+    for bd in prog.bodies.values():
+        if "::tests::" in bd.path or "::test::" in bd.path:
+            continue
+        if c10.REGION.search(bd.path) or bd.file.endswith(("app/gen/conversion.rs", "app/measurement.rs")):
+            continue
+        sym = None
+        for b, si, st in bd.assigns():
+            rv = st.rv
+            if rv["k"] != "cast" or not c10.narrowing(rv["from"], rv["to"]) or is_tracing(st.macros) or is_fmt_macro(st.macros):
+                continue
+            if rv["a"].is_const():
+                continue  # shift amounts and other literals
+            sym = sym or ctx.sym(bd)
+            op = sym.operand_expr(rv["a"])
+            if op[0] == "const":
+                continue
+            n += 1
+            cast = "%s->%s" % (rv["from"], rv["to"])
+            fn_ = c10.nice(bd.path)
+            key = "cast@%s:%s" % (fn_, cast)
+            if op[0] == "bin" and op[1] in ("BitAnd", "Rem"):
+                ctx.ok(key, "masked: %s" % expr_str(op)[:50], bd.where(b.idx))
+                continue
+            lo, hi = c10.bounds(ctx, bd, b.idx, op)
+            if hi and (lo or rv["from"][0] == "u"):
+                ctx.ok(key, "dominated by a range test of its operand", bd.where(b.idx))
+                continue
+            why = R16_LISTED.get((fn_.split("::{closure")[0], cast)) or R16_LISTED.get((re.sub(r"^.*?(\w+::\w+)$", r"\1", fn_), cast))
+            if why:
+                ctx.ok(key, "listed: " + why, bd.where(b.idx))
+            else:
+                ctx.bad(key, "unguarded narrowing cast %s of `%s` in %s: a count / length / value that does not fit wraps silently and encoder and decoder disagree" % (cast, expr_str(op)[:60], fn_), bd.where(b.idx))
+    if n < 10:
+        raise AnchorError("codec cast census: %d" % n)
+
+
+RULES.append(("C09.R16", "T1-census", "narrowing integer casts outside the measurement conversions are masked, range-guarded or listed", r16))
